@@ -352,6 +352,23 @@ def _shard_worker(args):
                     suppressed_hits=0, inconclusive=[], samples=[], metrics={}, counts=collections.Counter())
 
 
+def _ensure_atheris():
+    """the coverage-guided parts need atheris beside the checks (/verif/.deps is not under version control): install it from
+    the local wheelhouse once, before the shards start; if that is impossible the parts report themselves as skipped"""
+    import importlib.util, subprocess
+    deps = os.path.join(VERIF, ".deps")
+    if deps not in sys.path:
+        sys.path.append(deps)
+    if importlib.util.find_spec("atheris") is not None:
+        return
+    try:
+        subprocess.run([sys.executable, "-m", "pip", "install", "--no-index", "--find-links", "/opt/veriftools/wheels", "--target", deps, "atheris"],
+                       capture_output=True, text=True, timeout=300)
+        importlib.invalidate_caches()
+    except Exception:
+        pass
+
+
 def _fuzz_shard(pid, tier, part, shard, nshards, seed):
     """one coverage-guided campaign in a subprocess (libFuzzer owns the process: it never returns to its caller)"""
     import subprocess, shutil, tempfile
@@ -528,6 +545,8 @@ def run_property(pid, tier, seed, only_part=None):
     part_stats["replay_corpus"] = dict(evaluations=nreplay)
 
     shrink_budget = 20.0 if tier == "quick" else 120.0
+    if any(getattr(part, "fuzz", 0) > 0 for part in parts):
+        _ensure_atheris()
     jobs = []
     for part in parts:
         ns = part.shards or NPROC
